@@ -108,6 +108,8 @@ def unit_exit(eng, fi, c, fr, outcome):
         return
     for o in objs:
         H.assert_invariant(eng, o, 'exit' if outcome[0] == 'return' else 'exit-raise', props=None)
+        if not c.extra.get('no_guarantee'):
+            H.assert_guarantees(eng, o)
 
 
 def havoc_heap_for_loop(eng, s, fr, spec):
